@@ -1105,6 +1105,45 @@ func judgeC29(c c29Case, ops map[string]c29Op, results map[string]c29Result, eve
 		}
 	}
 
+	// (1b) the state is not closed under a running handler. Judged for sessions
+	// that cannot expire during the run, before any shutdown, and for handlers
+	// that did not end the session themselves: what is left is a teardown
+	// request (or another call) bearing the session running concurrently.
+	firstShutdown := -1
+	closeBeginEv := map[int][]c29Event{}
+	selfClosers := map[string]bool{}
+	for _, e := range events {
+		switch e.Kind {
+		case "shutdown_begin":
+			if firstShutdown < 0 {
+				firstShutdown = e.Seq
+			}
+		case "close_begin":
+			closeBeginEv[e.Slot] = append(closeBeginEv[e.Slot], e)
+		case "closesession":
+			selfClosers[e.Op] = true
+		}
+	}
+	for slot, ivs := range bySlot {
+		if slot < 0 || slot >= len(c.Slots) || c.Slots[slot].TTLms < 60000 {
+			continue
+		}
+		for _, iv := range ivs {
+			base := iv.op
+			if k := strings.Index(base, "#"); k >= 0 {
+				base = base[:k]
+			}
+			if selfClosers[iv.op] || selfClosers[base] {
+				continue
+			}
+			for _, ce := range closeBeginEv[slot] {
+				if ce.Seq > iv.start && ce.Seq < iv.end && (firstShutdown < 0 || ce.Seq < firstShutdown) {
+					out.Violate("C29/close-during-handler", "the state of session slot %d was closed (#%d) while handler %s [#%d,#%d] was running on it; %s", slot, ce.Seq, iv.op, iv.start, iv.end, history(slot))
+				}
+			}
+		}
+	}
+
 	// (2) Close at most once at any time, exactly once after the final shutdown
 	for si := range c.Slots {
 		n := len(closeEnds[si])
